@@ -215,7 +215,7 @@ fn prefix(kind: usize, len: usize) -> Vec<u8> {
             }
             v
         }
-        _ => {
+        2 => {
             // three-byte characters with ASCII pad
             let mut v = vec![];
             for _ in 0..len % 3 {
@@ -226,7 +226,37 @@ fn prefix(kind: usize, len: usize) -> Vec<u8> {
             }
             v
         }
+        _ => {
+            // four-byte characters with ASCII pad
+            let mut v = vec![];
+            for _ in 0..len % 4 {
+                v.push(b'r');
+            }
+            while v.len() < len {
+                v.extend_from_slice("😀".as_bytes());
+            }
+            v
+        }
     }
+}
+
+/// A suffix of exactly `len` bytes that starts with a character of `kind` bytes (if it fits)
+/// and continues with ASCII.
+fn suffix(kind: usize, len: usize) -> Vec<u8> {
+    let first: &[u8] = match kind {
+        2 => "é".as_bytes(),
+        3 => "日".as_bytes(),
+        4 => "💩".as_bytes(),
+        _ => b"",
+    };
+    let mut v = vec![];
+    if first.len() <= len {
+        v.extend_from_slice(first);
+    }
+    while v.len() < len {
+        v.push(b'.');
+    }
+    v
 }
 
 fn cores(maxlen: usize) -> Vec<Vec<u8>> {
@@ -290,6 +320,28 @@ pub fn run_phase(tier: Tier, path: &'static str) -> (Stats, VioSet) {
                                 }
                             } else {
                                 cx.utf8(&data, (pl + sl) % 16);
+                            }
+                        }
+                    }
+                }
+                // multi-byte neighbours on both sides: every prefix kind (incl. four-byte
+                // characters) x short cores (incl. none) x suffixes that start with a 2/3/4-byte
+                // character and end 0..=9 bytes later
+                for pk in 0..4 {
+                    let pre = prefix(pk, *pl);
+                    for core in core_list.iter().filter(|c| c.len() <= 1) {
+                        for sk in [2usize, 3, 4] {
+                            for sl in 0..=9usize {
+                                let mut data = pre.clone();
+                                data.extend_from_slice(core);
+                                data.extend(suffix(sk, sl));
+                                cx.utf8(&data, (pl + sl) % 16);
+                                // and two such characters in a row at the very end
+                                let mut d2 = pre.clone();
+                                d2.extend_from_slice(core);
+                                d2.extend(suffix(sk, sk));
+                                d2.extend(suffix(sl % 3 + 2, sl % 3 + 2));
+                                cx.utf8(&d2, pl % 16);
                             }
                         }
                     }
